@@ -25,11 +25,17 @@ Definition instr_of (x : sop) : instr :=
 
 Definition is_sl (o : opc) : bool :=
   match o with
-  | Jump | JumpOnFalse | StepRange | IterRange | GetLocal | SetLocal => false
+  | Jump | JumpOnFalse | StepRange | IterRange => false
   | _ => true
   end.
 
-(* one instruction is fine at height k (LocalCount = 0) *)
+(* the operand of a local access is below lc (checked apart from the heights:
+   the heights of this file are counted from LocalCount, see WFg_shift) *)
+Definition is_local (o : opc) : bool := match o with GetLocal | SetLocal => true | _ => false end.
+Definition lopk (lc : N) (x : sop) : Prop := is_local (fst x) = true -> snd x < lc.
+
+(* one instruction is fine at height k above the locals; the operand of
+   OpGetLocal / OpSetLocal is not checked here (lopk) *)
 Definition sop_ok (nc gc : N) (x : sop) (k : N) : option N :=
   let (o, arg) := x in
   if negb (is_sl o) then None
@@ -199,9 +205,95 @@ Proof.
     + right. right. exact HN.
 Qed.
 
+(* ---------- WF with the two roles of LocalCount apart ---------- *)
+(* WFg chk lb code: the judgment WF of Bytecode.v with the operand check chk
+   and the heights counted from lb.  WF bc is WFg (operand_ok bc) (lcount bc). *)
+Definition WFg (chk : instr -> bool) (lb : N) (code : list N) : Prop :=
+  exists (instrs : list (N * instr)) (h : N -> option ast),
+    decode_all code = Some instrs /\
+    (forall pc i, In (pc, i) instrs ->
+       chk i = true /\
+       forall t, jump_target i = Some t -> t = N.of_nat (List.length code) \/ In t (map fst instrs)) /\
+    (instrs <> [] -> h 0 = Some (AH lb)) /\
+    (forall pc a, h pc = Some a ->
+       exists i succs, In (pc, i) instrs /\ xfer lb pc i a = Some succs /\
+         forall t a', In (t, a') succs ->
+           (t = N.of_nat (List.length code) /\ a' = AH lb) \/ (t < N.of_nat (List.length code) /\ h t = Some a')).
+
+Lemma WF_WFg bc : WF bc <-> WFg (operand_ok bc) (lcount bc) (bcode bc).
+Proof. unfold WF, WFg, codelen. tauto. Qed.
+
+(* the transfer function does not depend on where the heights are counted from *)
+Definition ashift (lb : N) (a : ast) : ast := match a with AH k => AH (lb + k) | ACond k => ACond (lb + k) end.
+
+Lemma xfer_shift lb pc i a succs : xfer 0 pc i a = Some succs ->
+  xfer lb pc i (ashift lb a) = Some (map (fun ta => (fst ta, ashift lb (snd ta))) succs).
+Proof.
+  unfold xfer. destruct (opc_of_N (iop i)) as [o|]; [|discriminate].
+  destruct o; destruct a as [k|k]; cbn [ashift]; try discriminate;
+    try (destruct (simple_effect _ (arg0 i)) as [[p q]|]; [|discriminate]);
+    repeat match goal with
+    | |- (if ?c then _ else _) = _ -> _ => let E := fresh "E" in destruct c eqn:E; [|discriminate]
+    end;
+    intro H; inversion H; subst succs; clear H;
+    repeat match goal with
+    | |- context [?x <=? ?y] => let E2 := fresh "E2" in destruct (x <=? y) eqn:E2; [|lia]
+    end; cbn [map fst snd ashift];
+    try (destruct (arg0 i =? 0); cbn [ashift]);
+    repeat first [reflexivity | lia | progress f_equal].
+Qed.
+
+Lemma WFg_shift chk lb code : WFg chk 0 code -> WFg chk lb code.
+Proof.
+  intros (instrs & h & D & O & E & F).
+  exists instrs, (fun pc => option_map (ashift lb) (h pc)). split; [exact D|]. split; [exact O|]. split.
+  - intro NE. rewrite (E NE). cbn [option_map ashift]. rewrite N.add_0_r. reflexivity.
+  - intros pc a Ha. destruct (h pc) as [a0|] eqn:EH; [|discriminate]. cbn [option_map] in Ha. inversion Ha; subst a.
+    destruct (F pc a0 EH) as (i & succs & HI & HX & HS).
+    exists i, (map (fun ta => (fst ta, ashift lb (snd ta))) succs). split; [exact HI|]. split; [apply xfer_shift; exact HX|].
+    intros t a' Hin. apply in_map_iff in Hin. destruct Hin as ([t0 a0'] & Eq & Hin). cbn [fst snd] in Eq. inversion Eq; subst t a'.
+    destruct (HS _ _ Hin) as [[E1 E2]|[E1 E2]].
+    + left. split; [exact E1|]. subst a0'. cbn [ashift]. rewrite N.add_0_r. reflexivity.
+    + right. split; [exact E1|]. rewrite E2. reflexivity.
+Qed.
+
+(* the operand check without the locals *)
+Definition chk_nl (nc gc : N) (i : instr) : bool :=
+  match opc_of_N (iop i) with
+  | Some Constant => arg0 i <? nc
+  | Some GetGlobal | Some SetGlobal => arg0 i <? gc
+  | Some _ => true
+  | None => false
+  end.
+
+Lemma WFg_WF nc gc lc code : WFg (chk_nl nc gc) 0 code ->
+  (forall instrs pc i, decode_all code = Some instrs -> In (pc, i) instrs ->
+     match opc_of_N (iop i) with Some GetLocal | Some SetLocal => arg0 i < lc | _ => True end) ->
+  WF {| bcode := code; nconsts := nc; gcount := gc; lcount := lc |}.
+Proof.
+  intros HW HL. apply (WFg_shift _ lc) in HW. apply WF_WFg. cbn [bcode lcount].
+  destruct HW as (instrs & h & D & O & E & F). exists instrs, h. split; [exact D|]. split; [|split; assumption].
+  intros pc i HI. destruct (O pc i HI) as [C J]. split; [|exact J].
+  specialize (HL instrs pc i D HI). unfold chk_nl in C. unfold operand_ok. cbn [nconsts gcount lcount].
+  destruct (opc_of_N (iop i)) as [o|]; [|discriminate]. destruct o; try exact C; apply N.ltb_lt; exact HL.
+Qed.
+
+Lemma instrs_of_in ops : forall pc0 pc i, In (pc, i) (instrs_of ops pc0) -> exists x, In x ops /\ i = instr_of x.
+Proof.
+  induction ops as [|x t IH]; simpl; intros pc0 pc i H; [destruct H|].
+  destruct H as [E|H]; [inversion E; subst; eauto|]. destruct (IH _ _ _ H) as (y & Hy & ->). eauto.
+Qed.
+
+Lemma lopk_instr lc x : lopk lc x ->
+  match opc_of_N (iop (instr_of x)) with Some GetLocal | Some SetLocal => arg0 (instr_of x) < lc | _ => True end.
+Proof.
+  unfold lopk, instr_of, arg0. destruct x as [o arg]. cbn [fst snd iop iargs]. rewrite opc_of_N_of_opc.
+  intro H. destruct o; try exact I; cbn [has_operand nth]; apply H; reflexivity.
+Qed.
+
 Lemma instrs_ok nc gc ops : forall pc0 k0 kend, runs nc gc ops k0 = Some kend ->
   forall pc i, In (pc, i) (instrs_of ops pc0) ->
-    operand_ok {| bcode := encode ops; nconsts := nc; gcount := gc; lcount := 0 |} i = true /\ jump_target i = None.
+    chk_nl nc gc i = true /\ jump_target i = None.
 Proof.
   induction ops as [|x t IH]; simpl; intros pc0 k0 kend HR pc i H; [destruct H|].
   destruct (sop_ok nc gc x k0) as [k1|] eqn:ES; [|discriminate].
@@ -210,12 +302,11 @@ Proof.
     destruct (is_sl o) eqn:SL; [|discriminate]. destruct (arg <? 65536); [|discriminate]. simpl in ES.
     destruct (negb (has_operand o) && negb (arg =? 0)); [discriminate|].
     destruct (simple_effect o arg) as [[pn q]|]; [|discriminate]. destruct (k0 <? pn); [discriminate|].
-    unfold operand_ok, jump_target, instr_of, arg0. cbn [iop iargs fst snd nconsts gcount lcount].
+    unfold chk_nl, jump_target, instr_of, arg0. cbn [iop iargs fst snd].
     rewrite opc_of_N_of_opc.
     destruct o; try discriminate SL; cbn [has_operand nth] in *; split; auto;
       match type of ES with (if ?c then _ else _) = _ => destruct c; [reflexivity|discriminate] end.
-  - destruct (IH _ _ _ HR _ _ H) as [A B]. split; [|exact B].
-    unfold operand_ok in *. cbn [nconsts gcount lcount] in *. exact A.
+  - apply (IH _ _ _ HR _ _ H).
 Qed.
 
 Lemma sop_ok_xfer nc gc x k k' pc : sop_ok nc gc x k = Some k' ->
@@ -239,21 +330,20 @@ Proof.
     (destruct (0 + pn <=? k) eqn:E2; [reflexivity|apply N.leb_gt in E2; lia]).
 Qed.
 
-Theorem runs_WF : forall nc gc ops,
+Theorem runs_WFg : forall nc gc ops,
   runs nc gc ops 0 = Some 0 ->
-  WF {| bcode := encode ops; nconsts := nc; gcount := gc; lcount := 0 |}.
+  WFg (chk_nl nc gc) 0 (encode ops).
 Proof.
   intros nc gc ops HR.
-  set (bc := {| bcode := encode ops; nconsts := nc; gcount := gc; lcount := 0 |}).
-  assert (HLEN : codelen bc = total_len ops).
-  { unfold codelen, bc; simpl. apply (encode_len nc gc ops 0 0 HR). }
+  assert (HLEN : N.of_nat (List.length (encode ops)) = total_len ops).
+  { apply (encode_len nc gc ops 0 0 HR). }
   exists (instrs_of ops 0), (fun pc => option_map AH (alookup pc (annot nc gc ops 0 0))).
   split; [|split; [|split]].
   - unfold decode_all. simpl. eapply decode_from_encode; eauto.
   - intros pc i HI. destruct (instrs_ok nc gc ops 0 0 0 HR pc i HI) as [A B].
     split; [exact A|]. intros t Ht. rewrite B in Ht. discriminate.
   - intro NE. destruct ops as [|x t]; [simpl in NE; congruence|]. simpl. reflexivity.
-  - intros pc a Ha. cbn [lcount bc].
+  - intros pc a Ha.
     destruct (alookup pc (annot nc gc ops 0 0)) as [k|] eqn:EL; [|discriminate]. simpl in Ha. inversion Ha; subst a.
     apply alookup_some in EL.
     destruct (flow_ok nc gc ops 0 0 0 HR pc k EL) as (HB & x & k' & HI & HS & HN).
@@ -263,6 +353,19 @@ Proof.
     + left. split; [lia|subst; reflexivity].
     + right. destruct (flow_ok nc gc ops 0 0 0 HR _ _ HN) as (HB' & _).
       split; [lia|]. rewrite (alookup_in _ _ _ _ _ _ _ HN). reflexivity.
+Qed.
+
+(* straight-line code whose local operands are below lc *)
+Theorem runs_WF : forall nc gc lc ops,
+  runs nc gc ops 0 = Some 0 -> Forall (lopk lc) ops ->
+  WF {| bcode := encode ops; nconsts := nc; gcount := gc; lcount := lc |}.
+Proof.
+  intros nc gc lc ops HR HL. apply WFg_WF; [apply runs_WFg; exact HR|].
+  intros instrs pc i HD HI.
+  assert (instrs = instrs_of ops 0).
+  { unfold decode_all in HD. rewrite (decode_from_encode nc gc ops 0 0 0 _ HR (le_n _)) in HD. congruence. }
+  subst instrs. destruct (instrs_of_in _ _ _ _ HI) as (x & Hx & ->). apply lopk_instr.
+  rewrite Forall_forall in HL. apply HL. exact Hx.
 Qed.
 
 (* ====================================================================== *)
@@ -358,64 +461,113 @@ Proof.
     (eexists; split; [exact H|]; repeat split).
 Qed.
 
-Theorem efrag_sl : forall e, efrag e = true -> expr_sl e.
+(* the weak forms: locals may be visible *)
+Definition gbw (sym : symtab) (gc : N) : Prop :=
+  forall n y, st_resolve n sym = Some y -> sscp y = GlobalScope -> sidx y < gc.
+Definition lbw (sym : symtab) (lc : N) : Prop :=
+  forall n y, st_resolve n sym = Some y -> sscp y = LocalScope -> sidx y < lc.
+
+Lemma globals_below_gbw sym gc : globals_below sym gc -> gbw sym gc.
+Proof. intros H n y HR _. apply (H n y HR). Qed.
+
+Definition expr_sl2 (e : expr) : Prop :=
+  forall st st', compile_expr true e st = COk st' ->
+    csym st' = csym st /\
+    exists ops newc,
+      ccode st' = ccode st ++ encode ops /\ cconsts st' = cconsts st ++ newc /\
+      (forall nc gc k,
+        N.of_nat (List.length (cconsts st')) <= nc ->
+        gbw (csym st) gc ->
+        runs nc gc ops k = Some (k + 1)) /\
+      (forall lc, lbw (csym st) lc -> Forall (lopk lc) ops).
+
+Lemma sop_ok_getlocal nc gc idx k : idx < 65536 -> sop_ok nc gc (GetLocal, idx) k = Some (k + 1).
 Proof.
-  induction e; intro HF; try discriminate HF; unfold expr_sl; intros st st' HC.
+  intros H2. unfold sop_ok. cbn [is_sl negb has_operand andb simple_effect].
+  destruct (idx <? 65536) eqn:E; [|apply N.ltb_ge in E; lia]. cbn [negb].
+  destruct (k <? 0) eqn:E0; [apply N.ltb_lt in E0; lia|]. f_equal. lia.
+Qed.
+
+Lemma lopk_nonlocal lc o a : is_local o = false -> lopk lc (o, a).
+Proof. intros H X. cbn [fst] in X. congruence. Qed.
+Lemma noarg_nonlocal o : has_operand o = false -> is_local o = false.
+Proof. destruct o; try reflexivity; discriminate. Qed.
+
+Theorem efrag_sl2 : forall e, efrag e = true -> expr_sl2 e.
+Proof.
+  induction e; intro HF; try discriminate HF; unfold expr_sl2; intros st st' HC.
   - (* ENum *) simpl in HC. destruct (const_sl _ _ _ HC) as (R0 & A & B & C).
-    split; [exact A|]. eexists _, _. split; [exact B|]. split; [exact C|].
-    intros nc gc k H1 _. rewrite C, app_length in H1. simpl in H1. cbn [runs].
-    rewrite sop_ok_const by lia. reflexivity.
+    split; [exact A|]. eexists _, _. split; [exact B|]. split; [exact C|]. split.
+    + intros nc gc k H1 _. rewrite C, app_length in H1. simpl in H1. cbn [runs].
+      rewrite sop_ok_const by lia. reflexivity.
+    + intros lc _. constructor; [apply lopk_nonlocal; reflexivity|constructor].
   - (* EBool *) simpl in HC.
     assert (HO : has_operand (if b then OTrue else OFalse) = false) by (destruct b; reflexivity).
     pose proof (emit_enc0 _ _ _ HO HC) as ->. cbn [csym ccode cconsts].
     split; [reflexivity|]. exists [(if b then OTrue else OFalse, 0)], []. split; [rewrite encode_one; reflexivity|].
-    split; [rewrite app_nil_r; reflexivity|]. intros nc gc k _ _. cbn [runs].
-    rewrite (sop_ok_noarg nc gc _ 0 k HO) by (destruct b; try reflexivity; lia). f_equal. lia.
+    split; [rewrite app_nil_r; reflexivity|]. split.
+    + intros nc gc k _ _. cbn [runs].
+      rewrite (sop_ok_noarg nc gc _ 0 k HO) by (destruct b; try reflexivity; lia). f_equal. lia.
+    + intros lc _. constructor; [apply lopk_nonlocal, noarg_nonlocal; exact HO|constructor].
   - (* EStr *) simpl in HC. destruct (const_sl _ _ _ HC) as (R0 & A & B & C).
-    split; [exact A|]. eexists _, _. split; [exact B|]. split; [exact C|].
-    intros nc gc k H1 _. rewrite C, app_length in H1. simpl in H1. cbn [runs].
-    rewrite sop_ok_const by lia. reflexivity.
+    split; [exact A|]. eexists _, _. split; [exact B|]. split; [exact C|]. split.
+    + intros nc gc k H1 _. rewrite C, app_length in H1. simpl in H1. cbn [runs].
+      rewrite sop_ok_const by lia. reflexivity.
+    + intros lc _. constructor; [apply lopk_nonlocal; reflexivity|constructor].
   - (* EVar *) simpl in HC. unfold compile_var in HC.
     destruct (st_resolve n (csym st)) as [y|] eqn:ER; [|discriminate].
     destruct (sscp y) eqn:ES.
     + apply emit_enc1 in HC; [|reflexivity]. destruct HC as [HRng ->]. cbn [csym ccode cconsts].
       split; [reflexivity|]. exists [(GetGlobal, sidx y)], []. rewrite N2Z.id.
-      split; [rewrite encode_one; reflexivity|]. split; [rewrite app_nil_r; reflexivity|].
-      intros nc gc k _ HG. destruct (HG _ _ ER) as [_ HI]. cbn [runs].
-      rewrite sop_ok_getglobal by lia. reflexivity.
-    + (* a local: not in the straight-line top-level fragment; still straight-line? GetLocal is excluded *)
-      apply emit_enc1 in HC; [|reflexivity]. destruct HC as [HRng ->]. cbn [csym ccode cconsts].
+      split; [rewrite encode_one; reflexivity|]. split; [rewrite app_nil_r; reflexivity|]. split.
+      * intros nc gc k _ HG. pose proof (HG _ _ ER ES) as HI. cbn [runs].
+        rewrite sop_ok_getglobal by lia. reflexivity.
+      * intros lc _. constructor; [apply lopk_nonlocal; reflexivity|constructor].
+    + apply emit_enc1 in HC; [|reflexivity]. destruct HC as [HRng ->]. cbn [csym ccode cconsts].
       split; [reflexivity|]. exists [(GetLocal, sidx y)], []. rewrite N2Z.id.
-      split; [rewrite encode_one; reflexivity|]. split; [rewrite app_nil_r; reflexivity|].
-      intros nc gc k _ HG. destruct (HG _ _ ER) as [HS _]. congruence.
+      split; [rewrite encode_one; reflexivity|]. split; [rewrite app_nil_r; reflexivity|]. split.
+      * intros nc gc k _ _. cbn [runs]. rewrite sop_ok_getlocal by lia. reflexivity.
+      * intros lc HL. constructor; [|constructor]. intros _. cbn [snd]. apply (HL _ _ ER ES).
   - (* EUn *)
     assert (HF1 : efrag e = true) by (destruct op; simpl in HF; congruence).
     specialize (IHe HF1). simpl in HC. bind_inv HC.
-    destruct (IHe _ _ H) as (A & ops & newc & B & C & D).
+    destruct (IHe _ _ H) as (A & ops & newc & B & C & D & L).
     assert (exists o, emit true o [] st0 = COk st' /\ has_operand o = false /\ is_sl o = true /\ simple_effect o 0 = Some (1, 1))
       as (o & HEm & HO & HS & HE).
     { destruct op; try discriminate HF; (eexists; split; [exact HC|]; repeat split). }
     pose proof (emit_enc0 _ _ _ HO HEm) as ->. cbn [csym ccode cconsts].
     split; [exact A|]. exists (ops ++ [(o, 0)]), newc.
     split; [rewrite encode_app, encode_one, B, app_assoc; reflexivity|].
-    split; [exact C|]. intros nc gc k H1 HG.
-    eapply runs_app; [apply (D nc gc k); auto|]. cbn [runs].
-    rewrite (sop_ok_noarg nc gc o 1 (k + 1) HO HS HE) by lia. f_equal. lia.
+    split; [exact C|]. split.
+    + intros nc gc k H1 HG.
+      eapply runs_app; [apply (D nc gc k); auto|]. cbn [runs].
+      rewrite (sop_ok_noarg nc gc o 1 (k + 1) HO HS HE) by lia. f_equal. lia.
+    + intros lc HL. apply Forall_app. split; [apply L; exact HL|].
+      constructor; [apply lopk_nonlocal, noarg_nonlocal; exact HO|constructor].
   - (* EBin *)
     simpl in HF. apply andb_true_iff in HF. destruct HF as [HF1 HF2].
     specialize (IHe1 HF1). specialize (IHe2 HF2). simpl in HC. bind_inv HC. bind_inv H.
-    destruct (IHe1 _ _ H0) as (A1 & ops1 & newc1 & B1 & C1 & D1).
-    destruct (IHe2 _ _ H) as (A2 & ops2 & newc2 & B2 & C2 & D2).
+    destruct (IHe1 _ _ H0) as (A1 & ops1 & newc1 & B1 & C1 & D1 & L1).
+    destruct (IHe2 _ _ H) as (A2 & ops2 & newc2 & B2 & C2 & D2 & L2).
     destruct (binop_opc _ _ _ _ _ HC) as (o & HEm & HO & HS & HE).
     pose proof (emit_enc0 _ _ _ HO HEm) as ->. cbn [csym ccode cconsts].
     split; [congruence|]. exists (ops1 ++ ops2 ++ [(o, 0)]), (newc1 ++ newc2).
     split; [rewrite !encode_app, encode_one, B2, B1, <- !app_assoc; reflexivity|].
-    split; [rewrite C2, C1, <- app_assoc; reflexivity|].
-    intros nc gc k H1 HG.
-    eapply runs_app; [apply (D1 nc gc k); auto; rewrite C2, app_length in H1; lia|].
-    eapply runs_app; [apply (D2 nc gc (k + 1)); auto; rewrite A1; exact HG|]. cbn [runs].
-    rewrite (sop_ok_noarg nc gc o 2 (k + 1 + 1) HO HS HE) by lia. f_equal. lia.
+    split; [rewrite C2, C1, <- app_assoc; reflexivity|]. split.
+    + intros nc gc k H1 HG.
+      eapply runs_app; [apply (D1 nc gc k); auto; rewrite C2, app_length in H1; lia|].
+      eapply runs_app; [apply (D2 nc gc (k + 1)); auto; rewrite A1; exact HG|]. cbn [runs].
+      rewrite (sop_ok_noarg nc gc o 2 (k + 1 + 1) HO HS HE) by lia. f_equal. lia.
+    + intros lc HL. apply Forall_app. split; [apply L1; exact HL|]. apply Forall_app. split; [apply L2; rewrite A1; exact HL|].
+      constructor; [apply lopk_nonlocal, noarg_nonlocal; exact HO|constructor].
   - (* EGroup *) simpl in HF, HC. apply (IHe HF _ _ HC).
+Qed.
+
+Theorem efrag_sl : forall e, efrag e = true -> expr_sl e.
+Proof.
+  intros e HF st st' HC. destruct (efrag_sl2 e HF st st' HC) as (A & ops & newc & B & C & D & _).
+  split; [exact A|]. exists ops, newc. split; [exact B|]. split; [exact C|].
+  intros nc gc k H1 HG. apply (D nc gc k H1). apply globals_below_gbw. exact HG.
 Qed.
 
 (* ---------- statements of the fragment, at top level ---------- *)
@@ -458,7 +610,7 @@ Definition stmt_sl (st st' : cstate) : Prop :=
     forall nc gc,
       N.of_nat (List.length (cconsts st')) <= nc ->
       index (cur (csym st')) <= gc ->
-      runs nc gc ops 0 = Some 0.
+      runs nc gc ops 0 = Some 0 /\ Forall (lopk 0) ops.
 
 Lemma set_global_sl y st1 st' gcur :
   emit_set_var true y st1 = COk st' -> sscp y = GlobalScope -> sidx y < gcur ->
@@ -471,6 +623,9 @@ Proof.
   intros nc gc H1. cbn [runs]. rewrite sop_ok_setglobal by lia. reflexivity.
 Qed.
 
+Lemma top_lbw st : top_ok st -> lbw (csym st) 0.
+Proof. intros (HO & HI & _) n y HR HS. destruct (sym_top_globals _ HO HI n y HR) as [S _]. congruence. Qed.
+
 Lemma stmt_frag_sl s st st' :
   sfrag_stmt s = true -> compile_stmt true s st = COk st' -> top_ok st -> stmt_sl st st'.
 Proof.
@@ -478,7 +633,7 @@ Proof.
   destruct s; try discriminate HF.
   - (* SDecl *)
     simpl in HF, HC. bind_inv HC.
-    destruct (efrag_sl e HF _ _ H) as (A & ops & newc & B & C & D).
+    destruct (efrag_sl2 e HF _ _ H) as (A & ops & newc & B & C & D & L).
     destruct (st_define n (csym st0)) as [sym' y] eqn:ED.
     assert (HD : fst (st_define n (csym st0)) = sym' /\ snd (st_define n (csym st0)) = y) by (rewrite ED; auto).
     destruct HD as [HD1 HD2].
@@ -497,29 +652,31 @@ Proof.
     split; [rewrite E1; repeat split; auto|]. split; [rewrite E1; exact T4|].
     exists (ops ++ [(SetGlobal, sidx y)]), newc.
     split; [rewrite encode_app, E3, B, app_assoc; reflexivity|]. split; [rewrite E2; exact C|].
-    intros nc gc H1 H3. rewrite E1 in H3. cbn [csym] in H3.
-    eapply runs_app.
-    + apply (D nc gc 0); auto; [rewrite <- E2; exact H1|].
-      intros m ym HR. destruct (top_globals st HT m ym HR) as [S R]. split; [exact S|lia].
-    + apply E4; auto.
+    intros nc gc H1 H3. rewrite E1 in H3. cbn [csym] in H3. split.
+    + eapply runs_app.
+      * apply (D nc gc 0); auto; [rewrite <- E2; exact H1|].
+        intros m ym HR _. destruct (top_globals st HT m ym HR) as [S R]. lia.
+      * apply E4; auto.
+    + apply Forall_app. split; [apply L; apply top_lbw; exact HT|]. constructor; [apply lopk_nonlocal; reflexivity|constructor].
   - (* SAssign (EVar n) e *)
     destruct target; try discriminate HF. simpl in HF, HC. bind_inv HC.
-    destruct (efrag_sl e HF _ _ H) as (A & ops & newc & B & C & D).
+    destruct (efrag_sl2 e HF _ _ H) as (A & ops & newc & B & C & D & L).
     destruct (st_resolve n (csym st0)) as [y|] eqn:ER; [|discriminate].
     rewrite A in ER. destruct (top_globals st HT n y ER) as [S R].
     destruct (set_global_sl y st0 st' (index (cur (csym st))) HC S R) as (E1 & E2 & E3 & E4).
     split; [rewrite E1, A; exact HT|]. split; [rewrite E1, A; lia|].
     exists (ops ++ [(SetGlobal, sidx y)]), newc.
     split; [rewrite encode_app, E3, B, app_assoc; reflexivity|]. split; [rewrite E2; exact C|].
-    intros nc gc H1 H3. rewrite E1, A in H3.
-    eapply runs_app.
-    + apply (D nc gc 0); auto; [rewrite <- E2; exact H1|].
-      intros m ym HR. destruct (top_globals st HT m ym HR) as [S' R']. split; [exact S'|lia].
-    + apply E4; auto.
+    intros nc gc H1 H3. rewrite E1, A in H3. split.
+    + eapply runs_app.
+      * apply (D nc gc 0); auto; [rewrite <- E2; exact H1|].
+        intros m ym HR _. destruct (top_globals st HT m ym HR) as [S' R']. lia.
+      * apply E4; auto.
+    + apply Forall_app. split; [apply L; apply top_lbw; exact HT|]. constructor; [apply lopk_nonlocal; reflexivity|constructor].
   - (* SEmpty *)
     simpl in HC. inversion HC; subst st'. split; [exact HT|]. split; [lia|].
     exists [], []. split; [simpl; rewrite app_nil_r; reflexivity|]. split; [rewrite app_nil_r; reflexivity|].
-    intros; reflexivity.
+    intros; split; [reflexivity|constructor].
 Qed.
 
 Lemma slist_frag_sl p : forall st st',
@@ -528,16 +685,17 @@ Proof.
   induction p as [|s t IH]; intros st st' HF HC HT; unfold stmt_sl.
   - simpl in HC. inversion HC; subst st'. split; [exact HT|]. split; [lia|].
     exists [], []. split; [simpl; rewrite app_nil_r; reflexivity|]. split; [rewrite app_nil_r; reflexivity|].
-    intros; reflexivity.
+    intros; split; [reflexivity|constructor].
   - simpl in HF. apply andb_true_iff in HF. destruct HF as [HF1 HF2]. simpl in HC. bind_inv HC.
     destruct (stmt_frag_sl s st st0 HF1 H HT) as (T1 & M1 & ops1 & newc1 & B1 & C1 & D1).
     destruct (IH st0 st' HF2 HC T1) as (T2 & M2 & ops2 & newc2 & B2 & C2 & D2).
     split; [exact T2|]. split; [lia|]. exists (ops1 ++ ops2), (newc1 ++ newc2).
     split; [rewrite encode_app, B2, B1, app_assoc; reflexivity|].
     split; [rewrite C2, C1, app_assoc; reflexivity|].
-    intros nc gc H1 H3. eapply runs_app.
-    + apply D1; auto; [rewrite C2, app_length in H1; lia|lia].
-    + apply D2; auto.
+    intros nc gc H1 H3.
+    destruct (D1 nc gc) as [R1 L1]; auto; [rewrite C2, app_length in H1; lia|lia|].
+    destruct (D2 nc gc) as [R2 L2]; auto.
+    split; [eapply runs_app; eauto|apply Forall_app; auto].
 Qed.
 
 Lemma slist_ind_plain : forall (P : slist -> Prop), P SNil -> (forall s t, P t -> P (SCons s t)) -> forall l, P l.
@@ -557,5 +715,6 @@ Proof.
   destruct (slist_frag_sl p cinit st HF HC HT) as ((T1 & T2 & T3) & _ & ops & newc & B & C & D).
   unfold bytecode_of. cbn [out_code out_consts out_gcount out_lcount]. unfold st_local_count, st_global_count in *.
   rewrite T3. simpl in B. rewrite B.
-  apply runs_WF. apply D; lia.
+  destruct (D (N.of_nat (List.length (cconsts st))) (index (cur (csym st)))) as [R L]; [lia|lia|].
+  apply runs_WF; assumption.
 Qed.
